@@ -20,6 +20,7 @@ class Node:
         self.extra_fields = kw.get('extra_fields', 0)   # wstruct: unselected extra fields (stay zero)
         self.prevented = kw.get('prevented', 0)  # wstruct: fields tagged wire:"-" (stay zero)
         self.star = kw.get('star', False)       # wstruct: use "*" selection
+        self.valrecv = kw.get('valrecv', False)   # bind to a struct provider: the method has a value receiver although *S is bound
         self.fieldcase = kw.get('fieldcase', False)  # struct fields are named Fx / fx (differ only in case); components share one type
         self.variadic = kw.get('variadic', False)  # func: last parameter is variadic (...T of a slice-typed source)
         self.place = kw.get('place', 'direct')  # direct | set1 | set2 (nested in set1) | other (set in another package)
@@ -241,7 +242,12 @@ def render_package(spec, pkgname, modpath, other_pkg=None):
             if tn.kind == FIELD:
                 recv = nm.comp_tname(tn.parent, tn.fieldno)
             elif tn.kind == WSTRUCT:
-                w('func (x *%s) VIDs() []int { return ids%s(*x) }\n' % (nm.tname(tk), nm.tname(tk)))
+                if n.valrecv:
+                    # S and *S both implement the interface; the binding names *S, so consumers must get a pointer
+                    w('func (x %s) VIDs() []int { return ids%s(x) }\n' % (nm.tname(tk), nm.tname(tk)))
+                    w('func isPtr%d(x %s) bool { _, ok := x.(*%s); return ok }\n' % (k, nm.iname(k), nm.tname(tk)))
+                else:
+                    w('func (x *%s) VIDs() []int { return ids%s(*x) }\n' % (nm.tname(tk), nm.tname(tk)))
                 continue
             else:
                 recv = '*' + nm.tname(tk) if tn.ptr else nm.tname(tk)
@@ -269,6 +275,9 @@ def render_package(spec, pkgname, modpath, other_pkg=None):
         if n.has_err:
             rets.append('error')
         w('func %s(%s) (%s) {' % (nm.fname(k), ', '.join(params), ', '.join(rets)))
+        for j, (d, f) in enumerate(n.deps):
+            if nodes[d].kind == BIND and nodes[d].valrecv:
+                w('\tvrt.A("C11,C12,C02", isPtr%d(p%d), "an interface bound to *S receives the pointer form of the struct provider, not the value form")' % (d, j))
         w('\tvar args []int')
         for p in parts:
             w('\targs = append(args, %s...)' % p)
@@ -463,6 +472,13 @@ def family_kinds():
     # struct consumed in both forms by two consumers
     S([Node(FUNC, deps=[(1, 'val'), (2, 'val')]), Node(FUNC, deps=[(3, 'val')]), Node(FUNC, deps=[(3, 'ptr')]),
        Node(WSTRUCT, deps=[(4, 'val')], extra_fields=1), Node(FUNC, has_cleanup=True)], (0, 'val'), 'struct used as S and *S')
+    # struct consumed as a value and, through an interface bound to *S whose method has a value receiver, as a pointer
+    for order in (0, 1):
+        deps = [(1, 'val'), (2, 'val')] if order == 0 else [(2, 'val'), (1, 'val')]
+        S([Node(FUNC, deps=deps), Node(BIND, target=2, valrecv=True), Node(WSTRUCT, deps=[(3, 'val')], extra_fields=1), Node(FUNC, has_cleanup=True)], (0, 'val'),
+          'struct consumed by value and through an interface bound to its pointer form (value-receiver method), order %d' % order)
+    S([Node(FUNC, deps=[(1, 'val')]), Node(BIND, target=2, valrecv=True), Node(WSTRUCT, deps=[(3, 'val')], extra_fields=1), Node(FUNC)], (0, 'val'),
+      'interface bound to the pointer form of a struct provider whose method has a value receiver')
     # struct provider is the result itself (both forms)
     for sform in ('val', 'ptr'):
         S([Node(WSTRUCT, deps=[(1, 'val'), (2, 'ptr')], extra_fields=1, prevented=1), Node(FUNC, has_err=True), Node(FUNC, ptr=True, has_cleanup=True)],
